@@ -846,9 +846,12 @@ func main() {
 	kit.Cases(os.Args[2], func(idx int, raw []byte) {
 		var c M
 		kit.Unmarshal(raw, &c)
-		s := c["s"].(M)
-		it := &item{s: s}
-		items = append(items, it)
+		items = append(items, &item{s: c["s"].(M)})
+	})
+	// instantiate scenario idx (lazily, batch by batch)
+	prepare := func(idx int) {
+		it := items[idx]
+		s := it.s
 		rng := rand.New(rand.NewSource(kit.Seed()*1000003 + int64(idx)))
 		kind, n, p, method, name := str(s, "kind"), num(s, "n"), num(s, "p"), str(s, "method"), str(s, "name")
 		opt := []string{}
@@ -932,58 +935,70 @@ func main() {
 				}
 			}
 		}
-	})
-
-	// decode: intact files first, then every flipped file
-	var jobs []fqJob
-	type ref struct{ item, flip int }
-	var refs []ref
-	for i, it := range items {
-		if it.skipped != "" {
-			continue
-		}
-		jobs = append(jobs, fqJob{str(it.s, "kind"), it.b.data})
-		refs = append(refs, ref{i, -1})
-		for k, o := range it.offs {
-			d := append([]byte{}, it.b.data...)
-			d[o] ^= 1 << uint(o%8)
-			jobs = append(jobs, fqJob{str(it.s, "kind"), d})
-			refs = append(refs, ref{i, k})
-		}
 	}
-	reps := decodeAll(jobs)
-	intact := map[int]M{}
-	flips := map[int][]any{}
-	for j, r := range refs {
-		rep := reportRec(reps[j])
-		if r.flip < 0 {
-			intact[r.item] = rep
-			continue
+
+	// decode in batches of scenarios (intact file first, then every flipped file) so that memory stays bounded
+	out := kit.NewOut(os.Args[3])
+	for lo := 0; lo < len(items); {
+		hi, vol := lo, 0
+		for hi < len(items) && (hi == lo || (hi-lo < 64 && vol < 96<<20)) {
+			prepare(hi)
+			vol += len(items[hi].b.data) * (1 + len(items[hi].offs))
+			hi++
 		}
-		ninv := 0
-		for _, m := range rep["marks"].([]any) {
-			if m == "invalid" {
-				ninv++
+		var jobs []fqJob
+		type ref struct{ item, flip int }
+		var refs []ref
+		for i := lo; i < hi; i++ {
+			it := items[i]
+			if it.skipped != "" {
+				continue
+			}
+			jobs = append(jobs, fqJob{str(it.s, "kind"), it.b.data})
+			refs = append(refs, ref{i, -1})
+			for k, o := range it.offs {
+				d := append([]byte{}, it.b.data...)
+				d[o] ^= 1 << uint(o%8)
+				jobs = append(jobs, fqJob{str(it.s, "kind"), d})
+				refs = append(refs, ref{i, k})
 			}
 		}
-		flips[r.item] = append(flips[r.item], M{"off": items[r.item].offs[r.flip], "err": rep["err"], "ninvalid": ninv,
-			"same": sameReport(rep, intact[r.item]), "errtxt": rep["errtxt"]})
-	}
-	out := kit.NewOut(os.Args[3])
-	for i, it := range items {
-		if it.skipped != "" {
-			out.Emit(M{"s": it.s, "skipped": it.skipped})
-			continue
+		reps := decodeAll(jobs)
+		intact := map[int]M{}
+		flips := map[int][]any{}
+		for j, r := range refs {
+			rep := reportRec(reps[j])
+			if r.flip < 0 {
+				intact[r.item] = rep
+				continue
+			}
+			ninv := 0
+			for _, m := range rep["marks"].([]any) {
+				if m == "invalid" {
+					ninv++
+				}
+			}
+			flips[r.item] = append(flips[r.item], M{"off": items[r.item].offs[r.flip], "err": rep["err"], "ninvalid": ninv,
+				"same": sameReport(rep, intact[r.item]), "errtxt": rep["errtxt"]})
 		}
-		fl := flips[i]
-		if fl == nil {
-			fl = []any{}
+		for i := lo; i < hi; i++ {
+			it := items[i]
+			if it.skipped != "" {
+				out.Emit(M{"s": it.s, "skipped": it.skipped})
+				continue
+			}
+			fl := flips[i]
+			if fl == nil {
+				fl = []any{}
+			}
+			hdr := []any{}
+			for _, h := range it.b.hdr {
+				hdr = append(hdr, h)
+			}
+			out.Emit(M{"s": it.s, "skipped": "", "bytes": len(it.b.data), "written": writtenRecs(it.b.members), "hdr": hdr, "intact": intact[i], "flips": fl})
+			it.b = built{} // release
 		}
-		hdr := []any{}
-		for _, h := range it.b.hdr {
-			hdr = append(hdr, h)
-		}
-		out.Emit(M{"s": it.s, "skipped": "", "bytes": len(it.b.data), "written": writtenRecs(it.b.members), "hdr": hdr, "intact": intact[i], "flips": fl})
+		lo = hi
 	}
 	out.Close()
 }
